@@ -3,6 +3,6 @@ import Varpulis.Model.Expand
 namespace Varpulis.Props.C42
 open Varpulis.Expand
 
-theorem passes_zero (r : Text) : passes 0 r = .ok r := rfl
+theorem passes_zero (b : Nat) (r : Text) : passes 0 b r = .ok r := rfl
 
 end Varpulis.Props.C42
